@@ -83,6 +83,24 @@ func MapKeys(m interface{}) interface{} {
 		ents[i] = keyEnt{fnv(salt, s), s, k}
 	}
 	sort.Stable(ents)
+	// Keys that print identically (copies of one parse node in different
+	// derived templates): order them by the printed form of their values, so
+	// that the order is still a function of the map's contents.
+	for i := 0; i < len(ents); {
+		j := i + 1
+		for j < len(ents) && ents[j].h == ents[i].h && ents[j].s == ents[i].s {
+			j++
+		}
+		if j-i > 1 {
+			tie := ents[i:j]
+			vals := make(map[reflect.Value]string, len(tie))
+			for _, e := range tie {
+				vals[e.v] = fmt.Sprintf("%v", rv.MapIndex(e.v))
+			}
+			sort.SliceStable(tie, func(a, b int) bool { return vals[tie[a].v] < vals[tie[b].v] })
+		}
+		i = j
+	}
 	out := reflect.MakeSlice(reflect.SliceOf(rv.Type().Key()), len(ks), len(ks))
 	for i := range ents {
 		out.Index(i).Set(ents[i].v)
